@@ -155,6 +155,7 @@ fn main() {
                 "nonfinite" => scen_native::nonfinite(&cfg, &mut out),
                 "faultfit" => scen_native::faultfit(&cfg, &mut out),
                 "buildcase" => scen_native::buildcase(&cfg, &mut out),
+                "statsfit" => scen_native::statsfit(&cfg, &mut out),
                 "fitmap" => scen_native::fitmap(&cfg, &mut out),
                 "fwsmap" => {
                     let mut c2 = Cfg(cfg.0.clone());
@@ -165,7 +166,13 @@ fn main() {
             }));
             if let Err(e) = res {
                 let msg = e.downcast_ref::<String>().cloned().or_else(|| e.downcast_ref::<&str>().map(|s| s.to_string())).unwrap_or_default();
-                out.fact("no_panic", false, format!("panic during native run: {msg}"));
+                if msg.starts_with("VERIF-UNSUPPORTED") {
+                    out.obligations.clear();
+                    out.facts.clear();
+                    out.notes.push(msg);
+                } else {
+                    out.fact("no_panic", false, format!("panic during native run: {msg}"));
+                }
             }
             format!("{{\"mode\":\"f64\",\"scenario\":{},\"out\":{}}}", verif_sym::json_str(scenario), out.to_json())
         }
@@ -182,7 +189,13 @@ fn main() {
             let res = std::panic::catch_unwind(std::panic::AssertUnwindSafe(|| run_scenario::<f32>(scenario, &cfg, &mut out)));
             if let Err(e) = res {
                 let msg = e.downcast_ref::<String>().cloned().or_else(|| e.downcast_ref::<&str>().map(|s| s.to_string())).unwrap_or_default();
-                out.fact("no_panic", false, format!("panic during native f32 run: {msg}"));
+                if msg.starts_with("VERIF-UNSUPPORTED") {
+                    out.obligations.clear();
+                    out.facts.clear();
+                    out.notes.push(msg);
+                } else {
+                    out.fact("no_panic", false, format!("panic during native f32 run: {msg}"));
+                }
             }
             format!("{{\"mode\":\"f32\",\"scenario\":{},\"out\":{}}}", verif_sym::json_str(scenario), out.to_json())
         }
